@@ -211,7 +211,7 @@ class FileModel:
         from sim.core import digest as dg
         e = self.isos[key]
         fmat = self.mats.get(e["mname"])
-        return fmat is not None and dg.diff(e["content"]["mat"], fmat) is None
+        return fmat is not None and dg.diff(e["content"]["mat"], fmat, rtol=0.0) is None
 
     # ------------------------------------------------------------------ effects
     def apply(self, op, reply):
